@@ -134,6 +134,11 @@ func checkC41(c *Ctx, r *Report) {
 			key := fmt.Sprintf("%s.%s is set only before the object is shared", t[strings.LastIndex(t, ".")+1:], f)
 			if len(writes[k]) == 0 {
 				r.ok("C41.R2", key, "", fmt.Sprintf("%d constructor assignment(s)", okWrites[k]))
+			} else if mu := inferredGuard(m, t, st, f); mu != "" {
+				// a field that is not in the table but is, at every access in the module, touched with
+				// one and the same mutex of its struct held is guarded in fact (the lockset inference
+				// of Eraser, evaluated with the R1 engine): e.g. a counter added next to guarded state
+				r.ok("C41.R2", strings.Replace(key, "is set only before the object is shared", "is accessed only with "+t[strings.LastIndex(t, ".")+1:]+"."+mu+" held (inferred)", 1), "", fmt.Sprintf("%d post-publication write(s), all under the lock", len(writes[k])))
 			} else {
 				sort.Strings(writes[k])
 				r.viol("C41.R2", key, "", strings.Join(writes[k], "; "))
@@ -316,4 +321,36 @@ func faIsWriteStrict(fa *ssa.FieldAddr) bool {
 		}
 	}
 	return false
+}
+
+
+// inferredGuard: the mutex field of struct t under which every access to field f in the module
+// happens (write lock for writes), or "" if there is none. Uses the same engine and the same notion of
+// access as R1, on a scratch report.
+func inferredGuard(m *Module, t string, st *types.Struct, f string) string {
+	pkg, typ := t[:strings.LastIndex(t, ".")], t[strings.LastIndex(t, ".")+1:]
+	for i := 0; i < st.NumFields(); i++ {
+		ft := st.Field(i).Type().String()
+		if ft != "sync.Mutex" && ft != "sync.RWMutex" {
+			continue
+		}
+		scratch := newReport("C41")
+		checkLockset(m, scratch, "C41.infer", "inference", []guardSpec{{Pkg: pkg, Type: typ, Mutex: st.Field(i).Name(), Fields: []string{f}}}, 0)
+		bad, n := false, 0
+		for _, x := range scratch.Results {
+			if x.Rule != "C41.infer" {
+				continue
+			}
+			switch x.Status {
+			case Violation, Undecided, Unresolved:
+				bad = true
+			case OK:
+				n++
+			}
+		}
+		if !bad && n > 0 {
+			return st.Field(i).Name()
+		}
+	}
+	return ""
 }
